@@ -21,7 +21,8 @@ EXHAUSTIVE = {"quick": "all (start,end) for every chromosome of length <= 24 in 
 MIN_NONTRIVIAL = {"quick": 5000, "thorough": 50000}
 REQUIRED_PROBES = ["region_to_extent"]
 REQUIRED_FEATURES = ["binsize:fixed", "binsize:variable", "chrom:exhaustive", "chrom:sampled", "location:nested-group",
-                     "cooler:derived+chromosome-end-near-2^31", "history:queried-after-rename_chroms", "fetch2:cross-chrom"]
+                     "cooler:derived+chromosome-end-near-2^31", "history:queried-after-rename_chroms", "fetch2:cross-chrom",
+                     "chrom:>2^20-bins"]
 
 FAMS = ["fixed_exact", "fixed_short", "fixed_onebin", "variable", "onebin_each", "trap", "mixed", "multi_width"]
 
@@ -29,9 +30,9 @@ FAMS = ["fixed_exact", "fixed_short", "fixed_onebin", "variable", "onebin_each",
 def plan(tier, seed):
     if tier == "quick":
         return [{"kind": "exh", "fam": FAMS[i % len(FAMS)], "sub": i, "tables": 3, "maxlen": 24} for i in range(16)] + \
-               [{"kind": "big", "sub": i, "tables": 3} for i in range(2)]
+               [{"kind": "big", "sub": i, "tables": 3} for i in range(2)] + [{"kind": "megabins", "sub": 0}]
     return [{"kind": "exh", "fam": FAMS[i % len(FAMS)], "sub": i, "tables": 6, "maxlen": 40} for i in range(42)] + \
-           [{"kind": "big", "sub": i, "tables": 6} for i in range(6)]
+           [{"kind": "big", "sub": i, "tables": 6} for i in range(6)] + [{"kind": "megabins", "sub": i} for i in range(3)]
 
 
 def small_bt(rng, fam, maxlen):
@@ -99,6 +100,8 @@ def run(ctx, shard):
     probes.probe_region_to_extent()
     if shard["kind"] == "exh":
         run_exh(ctx, shard)
+    elif shard["kind"] == "megabins":
+        run_megabins(ctx, shard)
     else:
         run_big(ctx, shard)
 
@@ -314,3 +317,64 @@ def run_big(ctx, shard):
         r2 = ctx.rng("big-case", shard["sub"], t)
         if ctx.want(cid):
             run_table(ctx, cid, bt, r2, 0, sample_big=True, derive_k=derive_k)
+
+
+def run_megabins(ctx, shard):
+    """Scale boundary: a variable-width chromosome (restriction-fragment resolution) with more than 2**20 bins.
+    Covering bins are computed here with two binary searches on the generated edge array (the linear scan of the
+    small tables is too slow at this size); extents and table fetches must agree with them."""
+    import cooler
+    import pandas as pd
+
+    rng = ctx.rng("megabins", shard["sub"])
+    cid = f"megabins:{shard['sub']}"
+    if not ctx.want(cid):
+        return
+    nb = (1 << 20) + int(rng.integers(2000, 9000))
+    widths = rng.integers(1, 400, size=nb)
+    edges = np.concatenate([[0], np.cumsum(widths)]).astype(np.int64)
+    small = np.array([0, 700, 1500, 1501], dtype=np.int64)
+    order = ["frag", "tiny"] if shard["sub"] % 2 == 0 else ["tiny", "frag"]
+    tabs = {"frag": edges, "tiny": small}
+    bins = pd.concat([pd.DataFrame({"chrom": nm, "start": tabs[nm][:-1], "end": tabs[nm][1:]}) for nm in order], ignore_index=True)
+    offs = {order[0]: 0, order[1]: len(tabs[order[0]]) - 1}
+    ntot = len(bins)
+    ii = np.sort(rng.integers(0, ntot - 3, size=200))
+    pix = pd.DataFrame({"bin1_id": ii, "bin2_id": ii + rng.integers(0, 3, size=200), "count": 1}).drop_duplicates(["bin1_id", "bin2_id"])
+    path = ctx.path()
+    with ctx.case(cid, {"bins_of_frag": nb, "order": order}) as c:
+        cooler.create_cooler(path, bins, pix)
+        clr = cooler.Cooler(path)
+        c.feature("binsize:variable", "chrom:>2^20-bins")
+        L = int(edges[-1])
+        blk = int(edges[1 << 20])
+        pts = sorted({0, 1, L, L - 1, blk, blk - 1, blk + 1, int(edges[(1 << 20) - 1]), int(edges[(1 << 19)]), int(edges[5]),
+                      int(edges[nb - 2])} | {int(x) for x in rng.integers(0, L, size=6)})
+        regs = [(s_, e_) for s_ in pts for e_ in pts if s_ < e_]
+        nreg = 0
+        for s_, e_ in regs:
+            lo = int(np.searchsorted(edges[1:], s_, side="right"))
+            hi = int(np.searchsorted(edges[:-1], e_, side="left"))
+            want = (offs["frag"] + lo, offs["frag"] + hi)
+            for spelled in (("frag", s_, e_), f"frag:{s_}-{e_}"):
+                got = tuple(int(x) for x in clr.extent(spelled))
+                nreg += 1
+                if got != want:
+                    c.fail("extent-wrong-bins:>2^20-bins", f"extent({spelled!r}) = {got}, covering bins are {want}")
+                    break
+            if nreg % 9 == 0 and hi - lo < 200000:
+                bf = clr.bins().fetch(("frag", s_, e_))
+                c.check(len(bf) == hi - lo and (len(bf) == 0 or (int(bf["start"].iloc[0]) == int(edges[lo]) and int(bf["end"].iloc[-1]) == int(edges[hi]))),
+                        "bins-fetch-wrong-rows:>2^20-bins", f"bins().fetch(('frag', {s_}, {e_})) returns {len(bf)} rows, expected {hi - lo}")
+            if len(ctx.failures) > 5:
+                break
+        got = tuple(int(x) for x in clr.extent("frag"))
+        c.check(got == (offs["frag"], offs["frag"] + nb), "extent-wrong-bins:>2^20-bins", f"extent('frag') = {got}")
+        got = tuple(int(x) for x in clr.extent(f"frag:{blk - 5}-"))
+        c.check(got[1] == offs["frag"] + nb, "extent-wrong-bins:>2^20-bins", f"open-ended extent('frag:{blk - 5}-') = {got}")
+        pf = clr.pixels().fetch("frag")
+        wantn = int(((pix["bin1_id"] >= offs["frag"]) & (pix["bin1_id"] < offs["frag"] + nb)).sum())
+        c.check(len(pf) == wantn, "pixels-fetch-wrong-rows:>2^20-bins", f"pixels().fetch('frag') returns {len(pf)} rows, expected {wantn}")
+        ctx.evaluations += nreg
+        c.nontrivial("megabins", nb, tuple(order))
+    os.remove(path)
